@@ -21,6 +21,11 @@ ENV.pop("GOTOOLCHAIN", None)
 ENV.pop("GOSUMDB", None)
 
 
+# the repository's tests bind fixed ports (7777, 26735): run them in a private network namespace so
+# that concurrent runs on this machine cannot collide
+NETNS = "unshare -rn sh -c 'ip link set lo up && %s'"
+
+
 def sh(cmd, cwd=None, timeout=1800):
     p = subprocess.run(cmd, cwd=cwd, env=ENV, shell=isinstance(cmd, str), stdout=subprocess.PIPE,
                        stderr=subprocess.STDOUT, text=True, timeout=timeout)
@@ -48,10 +53,10 @@ def main():
             rec["confirmed"]["apply_output"] = o[-2000:]
         rc, o = sh("go build ./...", cwd=wt)
         rec["confirmed"]["builds"] = rc == 0
-        rc, o = sh("go test -vet=off -count=1 ./... 2>&1 | tail -60", cwd=wt)
+        rc, o = sh(NETNS % "go test -vet=off -count=1 ./... 2>&1 | tail -60", cwd=wt)
         fails = [l for l in o.split("\n") if l.startswith("FAIL") or l.startswith("--- FAIL")]
         if fails:   # timing-dependent tests: one retry
-            rc2, o2 = sh("go test -vet=off -count=1 ./... 2>&1 | tail -60", cwd=wt)
+            rc2, o2 = sh(NETNS % "go test -vet=off -count=1 ./... 2>&1 | tail -60", cwd=wt)
             fails2 = [l for l in o2.split("\n") if l.startswith("FAIL") or l.startswith("--- FAIL")]
             rec["confirmed"]["suite_first_run_failures"] = fails
             fails = fails2
@@ -59,12 +64,12 @@ def main():
         rec["confirmed"]["suite_failures"] = fails
         dst = os.path.join(wt, demo_dir, "zz_seed_demo_test.go")
         shutil.copyfile(demo, dst)
-        rc, o = sh("go test -vet=off -count=1 -run . ./%s/ 2>&1 | tail -30" % demo_dir, cwd=wt, timeout=900)
+        rc, o = sh(NETNS % ("go test -vet=off -count=1 -run . ./%s/ 2>&1 | tail -30" % demo_dir), cwd=wt, timeout=900)
         demo_fails_with = ("FAIL" in o)
         rec["confirmed"]["demo_fails_with_change"] = demo_fails_with
         rec["confirmed"]["demo_with_change_tail"] = o[-1500:]
         sh(["git", "apply", "-R", os.path.abspath(diff)], cwd=wt)
-        rc, o = sh("go test -vet=off -count=1 -run . ./%s/ 2>&1 | tail -30" % demo_dir, cwd=wt, timeout=900)
+        rc, o = sh(NETNS % ("go test -vet=off -count=1 -run . ./%s/ 2>&1 | tail -30" % demo_dir), cwd=wt, timeout=900)
         rec["confirmed"]["demo_passes_without_change"] = ("FAIL" not in o) and ("ok" in o)
         rec["confirmed"]["demo_without_change_tail"] = o[-800:]
     finally:
